@@ -50,7 +50,10 @@ import (
 
 func init() {
 	gens["c14fresh"] = c14GenFresh
-	if len(os.Args) >= 4 && os.Args[1] == "c14freshtrial" {
+	subcmds["c14freshtrial"] = func() {
+		if len(os.Args) < 4 {
+			os.Exit(2)
+		}
 		sub, _ := strconv.ParseUint(os.Args[2], 10, 64)
 		trial, _ := strconv.Atoi(os.Args[3])
 		fSilenceLogs()
@@ -384,6 +387,7 @@ func c14GenFresh(r *rng, n int, w *bufio.Writer) {
 		sub := r.u64() >> 1
 		ctx, cancel := context.WithTimeout(context.Background(), 180*time.Second)
 		cmd := exec.CommandContext(ctx, self, "c14freshtrial", strconv.FormatUint(sub, 10), strconv.Itoa(i))
+		cmd.Env = append(os.Environ(), "VERIF_GEN_FAMILY=c14fresh")
 		var so, se bytes.Buffer
 		cmd.Stdout, cmd.Stderr = &so, &se
 		runErr := cmd.Start()
